@@ -1,4 +1,4 @@
-import Xp.Proofs.C12
+import Xp.Proofs.C12T
 /-
 C12 — composition revisions form a faithful, monotonic history.
 
@@ -312,9 +312,9 @@ example : ∃ s c, WF HW DW s ∧ s.comps.find? (·.name = "comp") = some c ∧ 
 references were stripped by a backup/restore; the Composition has a new UID -/
 def d4Store : Store :=
   ⟨[⟨"comp", 10, cC, false⟩],
-   [⟨"comp-a", "comp", "ha", 1, none, [("channel", "dev")], 0⟩,
-    ⟨"comp-b", "comp", "hb", 2, none, [("channel", "dev")], 0⟩,
-    ⟨"comp-c", "comp", "hc", 3, none, [], 1⟩], []⟩
+   [⟨"comp-a", "comp", "ha", 1, none, [("channel", "dev")], 0, 2⟩,
+    ⟨"comp-b", "comp", "hb", 2, none, [("channel", "dev")], 0, 2⟩,
+    ⟨"comp-c", "comp", "hc", 3, none, [], 1, 2⟩], []⟩
 
 /-- what one fault-free reconcile of the unchanged ordering does to it: the current revision goes 3 → 1 -/
 theorem d4_unfixed_run :
@@ -342,5 +342,161 @@ theorem d4_fixed_run :
 
 /-- the order of calls of the defective model is the other one (what the walk of the unchanged tree yields) -/
 theorem d4_skeleton_differs : reconcileD4Skeleton ≠ reconcileSkeleton := by decide
+
+/-! ### interference between API calls, error classes, informer-cache lag
+
+`runX sm env plan`: other clients act on the store right before every API call
+(`env k`), a call may be answered with any error class without being applied
+(`Fault.reply`), reads may be served by a lagging informer cache (`semV (v k)`, a view
+per call). The theorems above are the special case without any of this (`runX_plain`). -/
+
+/-- the setting of the theorems above is `runX` without interference, error classes and lag -/
+theorem interference_free_is_special_case {α : Type} (plan : Plan) (p : P α) (s : Store) :
+    runX (fun _ => semV View.fresh) Env.none (FPlan.ofPlan plan) 0 p s = run sem plan 0 p s :=
+  runX_plain plan p 0 s
+
+/-- **Numbers only grow, no revision is edited or deleted, every revision stays the
+faithful image of one content with a unique name — under ANY interference, error class,
+crash and cache lag**: whatever other clients do between two API calls of a reconcile (as
+long as they themselves keep `WF0` and `Le`: users, backup/restore, other controllers, other
+replicas of this controller), whichever error class any call is answered with, and
+whatever lagging views the informer cache serves at each call, every instant of the
+reconcile is `WF0`, later instants are `Le`-above earlier ones (per revision: same name,
+labels, spec, number not decreased), and every write the reconcile applies is an `Update`
+that only raises a number / changes the owner or a `Create` of a faithful revision. -/
+theorem history_safe_under_interference (v : Nat → View) (hv : ∀ k, ViewOK D (v k)) (env : Env Store)
+    (henv : ∀ k s, WF0 H D s → WF0 H D (env k s) ∧ Le s (env k s)) (plan : FPlan) (hplan : plan.errOnly)
+    (comp : String) (s : Store) (w : WF0 H D s) :
+    (∀ s' ∈ reachX (fun k => semV (v k)) env plan 0 (reconcile H comp) s, WF0 H D s' ∧ Le s s') ∧
+    (reachX (fun k => semV (v k)) env plan 0 (reconcile H comp) s).Pairwise Le ∧
+    (∀ x ∈ ownX (fun k => semV (v k)) env plan 0 (reconcile H comp) s, WF0 H D x.1 ∧ GoodReq H D x.2) :=
+  issuesG_reach v env plan hv henv hplan _ (reconcile_issues comp) 0 s w
+
+/-- … in particular **numbers only grow** across any two instants of such a reconcile -/
+theorem numbers_monotone_under_interference (v : Nat → View) (hv : ∀ k, ViewOK D (v k)) (env : Env Store)
+    (henv : ∀ k s, WF0 H D s → WF0 H D (env k s) ∧ Le s (env k s)) (plan : FPlan) (hplan : plan.errOnly)
+    (comp : String) (s : Store) (w : WF0 H D s) :
+    (reachX (fun k => semV (v k)) env plan 0 (reconcile H comp) s).Pairwise fun a b =>
+      ∀ r ∈ a.revs, ∃ r' ∈ b.revs, r'.name = r.name ∧ r'.spec = r.spec ∧ r'.labels = r.labels ∧ r.num ≤ r'.num := by
+  refine (history_safe_under_interference v hv env henv plan hplan comp s w).2.1.imp ?_
+  intro a b hab r hr
+  obtain ⟨r', hr', e1, _, _, e4, e5, e6⟩ := hab r hr
+  exact ⟨r', hr', e1, e4, e5, e6⟩
+
+/-- … and **a content is never captured twice**: at every instant two revisions of one
+Composition carrying the same content hash are the same object -/
+theorem one_rev_per_content_under_interference (hi : H.Inj D) (v : Nat → View) (hv : ∀ k, ViewOK D (v k))
+    (env : Env Store) (henv : ∀ k s, WF0 H D s → WF0 H D (env k s) ∧ Le s (env k s)) (plan : FPlan)
+    (hplan : plan.errOnly) (comp : String) (s : Store) (w : WF0 H D s) :
+    ∀ s' ∈ reachX (fun k => semV (v k)) env plan 0 (reconcile H comp) s,
+      ∀ a ∈ s'.revs, ∀ b ∈ s'.revs, a.comp = b.comp → a.hash = b.hash → a = b := by
+  intro s' hs' a ha b hb hc hh
+  have w' := ((history_safe_under_interference v hv env henv plan hplan comp s w).1 s' hs').1
+  exact eq_of_name_eq w'.names ha hb (w'.name_of_hash hi ha hb hc hh)
+
+/-- the same for the XR side: a fetch keeps the revision history intact whatever happens around it -/
+theorem fetch_safe_under_interference (v : Nat → View) (hv : ∀ k, ViewOK D (v k)) (env : Env Store)
+    (henv : ∀ k s, WF0 H D s → WF0 H D (env k s) ∧ Le s (env k s)) (plan : FPlan) (hplan : plan.errOnly)
+    (xr : String) (s : Store) (w : WF0 H D s) :
+    (∀ s' ∈ reachX (fun k => semV (v k)) env plan 0 (fetch xr) s, WF0 H D s' ∧ Le s s') ∧
+    (reachX (fun k => semV (v k)) env plan 0 (fetch xr) s).Pairwise Le :=
+  ⟨(issuesG_reach v env plan hv henv hplan _ (fetch_issues xr) 0 s w).1,
+   (issuesG_reach v env plan hv henv hplan _ (fetch_issues xr) 0 s w).2.1⟩
+
+/-- **After a reconcile that returned without error the revision of the content it read
+has the strictly highest number — also when third parties act between its API calls**
+(`RelyT`: users editing / re-creating Compositions and XRs, backup/restore or other
+controllers stripping or replacing the owner references of revisions) and whichever
+error class any later call is answered with. `c` is the Composition the reconcile's `Get`
+returned (the store after the interference preceding that call). Lists are read fresh. -/
+theorem current_is_highest_under_interference (hi : H.Inj D) (s : Store) (w : WF H D s) (env : Env Store)
+    (henv : ∀ k s, RelyT D s (env k s)) (plan : FPlan) (hplan : plan.errOnly) (hp0 : plan 0 = .out .ok)
+    (comp : String) (c : Comp) (hc : (env 0 s).comps.find? (·.name = comp) = some c) (hd : c.deleting = false)
+    (hok : (runX (fun _ => sem) env plan 0 (reconcile H comp) s).2 = some .done ∨
+           (runX (fun _ => sem) env plan 0 (reconcile H comp) s).2 = some .created) :
+    ∃ r ∈ (runX (fun _ => sem) env plan 0 (reconcile H comp) s).1.revs,
+      r.comp = comp ∧ r.hash = H.hash c.content ∧ r.spec = c.content.spec ∧ r.labels = c.content.labels ∧
+      ∀ r' ∈ (runX (fun _ => sem) env plan 0 (reconcile H comp) s).1.revs,
+        r'.comp = comp → r'.name ≠ r.name → r'.num < r.num := by
+  have hcn : c.name = comp := find_name (f := Comp.name) hc
+  have w1 : WF H D (env 0 s) := (henv 0 s).wf w
+  have hD : D c.content := w1.comps c (List.mem_of_find?_eq_some hc)
+  rw [runX_reconcile_head env plan hp0 s comp c hc] at hok ⊢
+  have post := safeE_run env henv plan hplan (recTail H c) 1 (env 0 s) (recTail_safeE hi c hD (env 0 s) w1)
+  have g : Good' H c (runX (fun _ => sem) env plan 1 (recTail H c) (env 0 s)).1 := by
+    rcases hok with h | h
+    · exact post _ h (Or.inl rfl) hd
+    · exact post _ h (Or.inr rfl) hd
+  obtain ⟨r, hr, g1, g2, g3, g4, g5⟩ := g
+  exact ⟨r, hr, hcn ▸ g1, g2, g3, g4, fun r' hr' hc' hn => g5 r' hr' (hcn ▸ hc') hn⟩
+
+/-- **An XR that is Manual and references a revision keeps using it — whatever happens
+around the fetch**: if the XR the fetch read (through a possibly lagging cache, after
+whatever other clients did) is Manual and references `p`, the fetch applies no write at
+all, under every interference, error class and cache lag, and the only revision it can
+hand over is named `p`. -/
+theorem manual_pins_under_interference (v : Nat → View) (env : Env Store) (plan : FPlan) (hplan : plan.errOnly)
+    (hp0 : plan 0 = .out .ok) (s : Store) (n : String) (x : XR) (p : String)
+    (hx : ((v 0).apply (env 0 s)).xrs.find? (·.name = n) = some x)
+    (hpol : x.policy = some .manual) (href : x.ref = some p) :
+    (∀ y ∈ ownX (fun k => semV (v k)) env plan 0 (fetch n) s, y.2.isWrite = false) ∧
+    ∀ r, (runX (fun k => semV (v k)) env plan 0 (fetch n) s).2 = some (.rev r) → r.name = p := by
+  obtain ⟨e1, e2⟩ := fetch_head_manual v env plan hp0 s n x p hx hpol href
+  rw [e1, e2]
+  constructor
+  · intro y hy
+    rcases List.mem_cons.mp hy with h | h
+    · subst h; rfl
+    · exact manualTail_own _ env plan 1 _ p y h
+  · intro r hr
+    exact manualTail_run v env plan hplan 1 _ p r hr
+
+/-- the rely of the previous theorem is met by every environment action of the histories -/
+theorem envStep_is_third_party (s : Store) (w : WF H D s) (e : Ev) (he : EvOK D e) : RelyT D s (envStep s e) :=
+  ⟨envStep_map_er s e, envStep_comps w.comps e he⟩
+
+/-! ### the revision-created handler of the XR controller -/
+
+/-- **Every XR that is not Manual and uses the Composition of a newly created revision is
+enqueued** (so that its next fetch moves it to that revision), and nothing else is. -/
+theorem enqueue_exactly_automatic (xrs : List XR) (r : Rev) (hr : r.comp ≠ "") (n : String) :
+    n ∈ enqueueFor xrs r ↔ ∃ x ∈ xrs, x.name = n ∧ x.comp = r.comp ∧ x.policy ≠ some .manual := by
+  simp only [enqueueFor, hr, if_false, List.mem_map, List.mem_filter, Bool.and_eq_true, decide_eq_true_eq,
+    ne_eq]
+  constructor
+  · rintro ⟨x, ⟨hx, hp, hc⟩, e⟩; exact ⟨x, hx, e, hc, hp⟩
+  · rintro ⟨x, hx, e, hc, hp⟩; exact ⟨x, ⟨hx, hp, hc⟩, e⟩
+
+/-! ### finding D22: with a lagging revision list the current content does not get the highest number -/
+
+def revA : Rev := ⟨"comp-a", "comp", "ha", 1, some 1, [("channel", "dev")], 0, 1⟩
+def revB : Rev := ⟨"comp-b", "comp", "hb", 2, some 1, [("channel", "dev")], 0, 1⟩
+
+/-- contents A, B captured as revisions 1, 2; the Composition was just edited to C -/
+def staleStore : Store := ⟨[comp0 cC], [revA, revB], [⟨"xr", "comp", some .automatic, none, none, 0⟩]⟩
+
+/-- the informer cache has not yet seen revision B (created by the previous reconcile) -/
+def staleView : View := { revs := some [revA] }
+
+def afterStale : Store := (runX (fun _ => semV staleView) Env.none (FPlan.ofPlan Plan.allOk) 0 (reconcile HW "comp") staleStore).1
+
+/-- the reconcile on the lagging list creates the revision of C with number 2, which B already carries -/
+theorem stale_list_run :
+    (runX (fun _ => semV staleView) Env.none (FPlan.ofPlan Plan.allOk) 0 (reconcile HW "comp") staleStore).2 = some .created ∧
+    afterStale.revs.map (fun r => (r.name, r.num)) = [("comp-a", 1), ("comp-b", 2), ("comp-c", 2)] := by decide
+
+/-- `current_is_highest` is false with a lagging list: the reconcile returned without error
+and the revision of the current content C does not have the strictly highest number -/
+theorem current_is_highest_fails_with_stale_list_witness :
+    (runX (fun _ => semV staleView) Env.none (FPlan.ofPlan Plan.allOk) 0 (reconcile HW "comp") staleStore).2 = some .created ∧
+    ¬ ∃ r ∈ afterStale.revs, r.hash = HW.hash cC ∧ ∀ r' ∈ afterStale.revs, r'.name ≠ r.name → r'.num < r.num := by
+  decide
+
+/-- … and no later reconcile repairs it: on fresh reads the reconcile returns `done` and
+leaves the tie, and an Automatic XR is handed the revision of the PREVIOUS content B -/
+theorem stale_list_tie_is_never_repaired_witness :
+    run sem Plan.allOk 0 (reconcile HW "comp") afterStale = (afterStale, some .done) ∧
+    ((run sem Plan.allOk 0 (fetch "xr") afterStale).2.map fun | .rev r => r.name | .err => "err") = some "comp-b" := by
+  decide
 
 end Xp.C12
